@@ -47,8 +47,9 @@ TraceAddNode ==
   /\ IsEvent("AddNode")
   /\ LET c == Cand(Ev.c) IN
        /\ AddNodeAs(c, Ev.res)
-       /\ Strict => /\ Cardinality({x \in unq' : x.addr \notin queried'}) <= Ev.nu
-                    /\ Ev.nu <= Cardinality(unq')
+       \* the code's frontier may hold the same candidate twice (its IPv4 address reported in 4-byte and in
+       \* v4-mapped form) and stale candidates; it never holds fewer than the live ones
+       /\ Strict => Cardinality({x \in unq' : x.addr \notin queried'}) <= Ev.nu
   /\ UNCHANGED obs
 
 TraceStartQuery ==
